@@ -1549,6 +1549,16 @@ impl<T: Storage> Raft<T> {
             return;
         }
 
+        if !self.promotable {
+            // Not a voter of the active configuration (removed, demoted or never added):
+            // such a node must not start an election, whoever asks for it.
+            warn!(
+                self.logger,
+                "not a voter of the current configuration; dropping MsgHup"
+            );
+            return;
+        }
+
         // Scan all unapplied committed entries to find a config change.
         // Paginate the scan, to avoid a potentially unlimited memory spike.
         //
